@@ -14,7 +14,7 @@ import (
 )
 
 func init() {
-	register("C18", "Structural clauses of link following: in the resolver every recursive call is preceded by the membership test of the current path in the resolved set (a hit returns), and by the insertion of that path, so that each recursion level adds a symlink path not seen before; FollowLinks sorts before de-duplicating and returns the de-duplicated list; de-duplication returns no filter for the root and uses a separator-terminated prefix; a relative link is re-rooted with a Join whose first element is the separator and an absolute one is cleaned; requested paths are re-rooted with Join(containsWildcards answers true exactly when a character is one of * ? [ (polarity of each test and of their connective), and the escape step is live on this platform. The link name a symlink is announced with is what readlink returned, also when its inode has several names (stat constructor, shared with C01). \".\", p); NewFilterFS feeds the resolved targets into the include patterns the include matcher is built from. The set of characters that makes a resolved request a wildcard pattern is complete (shared with C10). Does not decide termination of the component loop, closure or minimality of the result.", runC18)
+	register("C18", "Structural clauses of link following: in the resolver every recursive call is preceded by the membership test of the current path in the resolved set (a hit returns), and by the insertion of that path, so that each recursion level adds a symlink path not seen before; FollowLinks sorts before de-duplicating and returns the de-duplicated list; de-duplication returns no filter for the root and uses a separator-terminated prefix; a relative link is re-rooted with a Join whose first element is the separator and an absolute one is cleaned; requested paths are re-rooted with Join(\".\", p); containsWildcards answers true exactly when a character is one of * ? [ (polarity of each test and of their connective), and the escape step is live on this platform. The link name a symlink is announced with is what readlink returned, also when its inode has several names (stat constructor, shared with C01). NewFilterFS feeds the resolved targets into the include patterns the include matcher is built from. The set of characters that makes a resolved request a wildcard pattern is complete (shared with C10). Does not decide termination of the component loop, closure or minimality of the result.", runC18)
 }
 
 func runC18(c *Ctx) {
